@@ -287,6 +287,8 @@ def r8_buffered_sinks_are_flushed(ctx):
 
 
 def run(ctx):
+    from . import effects
+    effects.check_property(ctx, "C08")    # R08.E: no operation on shared protocol state outside the reviewed table
     from . import C09
     r8_buffered_sinks_are_flushed(ctx)
     from . import C01
